@@ -53,11 +53,13 @@ class Script(B.History):
         self.cls = cls
         self.refs = []          # per op: None, or the canonical answer an exact reference gives
         self.extra_tags = []    # secondary classes of the generated inputs (centre kinds, …), counted once each
+        self.qargs = []         # per op: None, or (text of the centre, text of the radius) of a query
 
     def line(self):
         return f"{self.head} {len(self.tokens)} " + " ".join(self.tokens)
 
-    def _push(self, tok, text, tag, run, ref=None):
+    def _push(self, tok, text, tag, run, ref=None, qargs=None):
+        self.qargs.append(qargs)
         tag, _, extra = tag.partition("|")
         if extra:
             self.extra_tags.append(f"{self.cls}:{extra}")
@@ -68,7 +70,7 @@ class Script(B.History):
         self.refs.append(ref)
         self.impl.append(B._observe(run, self.g))
 
-    def q(self, cobj, robj, tag, tamper=None, ref=False):
+    def q(self, cobj, robj, tag, tamper=None, ref=False, call="pos"):
         """`lg = g.get_localgrid(cobj, robj)`; `tamper = (callable(g), text)` runs first (the caller's edits of
         the local grid it holds); `ref=True`: attach the exact reference answer."""
         cs = np.asarray(cobj)
@@ -77,6 +79,11 @@ class Script(B.History):
         tok = ("q s " + f2b(float(csf)) if cs.ndim == 0 else "q v " + fvec(csf)) + " " + f2b(rf)
         LG = self.M["basegrid"].LocalGrid
         text = f"lg = g.get_localgrid({B._descr(cobj)}, {B._descr(robj)})"
+        if call != "pos":
+            # (class 15: the same call spelled with keywords; the replay text stays positional)
+            text += {"kw": "  # called as get_localgrid(center=…, radius=…)", "kw-swapped": "  # called as get_localgrid(radius=…, center=…)",
+                     "mixed": "  # called as get_localgrid(…, radius=…)"}[call]
+            self.extra_tags.append(f"{self.cls}:call-{call}")
         if tamper is not None:
             text = tamper[1] + "\n" + text
         if self._seen_query and self._mut_since:
@@ -84,17 +91,24 @@ class Script(B.History):
         self._seen_query, self._mut_since = True, False
         want = exact_answer(self.g, csf, rf) if ref else None
 
-        def run(g, cobj=cobj, robj=robj, cs=cs, tamper=tamper):
+        def run(g, cobj=cobj, robj=robj, cs=cs, tamper=tamper, call=call):
             if tamper is not None:
                 tamper[0](g)
-            lg = g.get_localgrid(cobj, robj)
+            if call == "kw":
+                lg = g.get_localgrid(center=cobj, radius=robj)
+            elif call == "kw-swapped":
+                lg = g.get_localgrid(radius=robj, center=cobj)
+            elif call == "mixed":
+                lg = g.get_localgrid(cobj, radius=robj)
+            else:
+                lg = g.get_localgrid(cobj, robj)
             g._gv_lg = lg
             if type(lg) is not LG:
                 return "wrong-type:" + type(lg).__name__
             if not np.array_equal(np.asarray(lg.center), cs):
                 return "wrong-center"
             return B._canon_local(lg)
-        self._push(tok, text, "query:" + tag, run, want)
+        self._push(tok, text, "query:" + tag, run, want, qargs=(B._descr(cobj), B._descr(robj)))
 
     def sp(self, new, tag, same_obj=False):
         new = np.asarray(new)
@@ -124,12 +138,12 @@ class Script(B.History):
             return "D"
         self._push(tok, f"g.weights = {B._descr(new)}", "setweights:" + tag, run)
 
-    def gi(self, idx, tok, tag):
+    def gi(self, idx, tok, tag, expect=None):
         kind = self.kind
 
         def run(g, idx=idx):
             sub = g[idx]
-            if type(sub) is not type(g):
+            if type(sub) is not (expect or type(g)):
                 return "wrong-type:" + type(sub).__name__
             dom = "0"
             if kind == "oned" and sub.domain is not None:
@@ -624,27 +638,35 @@ def corr_ctor(ctx, M):
 # ----------------------------------------------------------------------------------------------------
 # entry points
 # ----------------------------------------------------------------------------------------------------
-def scripts(ctx, M, oracle=False):
+def _budget(ctx, oracle):
     f = 6 if oracle == "large" else 1
-    q = (lambda a, b: f * ctx.n(a, b))
-    hs = []
-    hs += gen_exact(ctx, M, q(500, 4000) if not oracle else q(250, 2500))
-    hs += gen_special(ctx, M, q(240, 2000) if not oracle else q(120, 1200))
-    hs += gen_handout(ctx, M, q(240, 2000) if not oracle else q(120, 1200))
-    hs += gen_orders(ctx, M, ctx.n(2, 3) if not oracle else (2 if f > 1 else ctx.n(1, 2)))
+    return (lambda a, b: f * ctx.n(a, b)), f
+
+
+def script_classes(ctx, M, oracle=False):
+    """-> [(class name, generator thunk)]: each class is generated (and run on the implementation) on its own."""
+    q, f = _budget(ctx, oracle)
+    out = [("exact", lambda: gen_exact(ctx, M, q(500, 4000) if not oracle else q(250, 2500))),
+           ("special", lambda: gen_special(ctx, M, q(240, 2000) if not oracle else q(120, 1200))),
+           ("handout", lambda: gen_handout(ctx, M, q(240, 2000) if not oracle else q(120, 1200))),
+           ("orders", lambda: gen_orders(ctx, M, ctx.n(2, 3) if not oracle else (2 if f > 1 else ctx.n(1, 2))))]
     if not oracle:
-        hs += gen_domain(ctx, M, q(120, 1200))
-    return hs
+        out.append(("domain", lambda: gen_domain(ctx, M, q(120, 1200))))
+    return out
 
 
-def corr(ctx, M):
-    hs = scripts(ctx, M)
+def corr_scripts(ctx, gen):
+    hs = [h for h in gen() if h.tokens]      # (a script whose every candidate query was left out has nothing to compare)
     lines = [h.line() for h in hs]
     B._compare(ctx, hs, lines, driver_batch(lines))
     for h in hs:
         for t in getattr(h, "extra_tags", ()):
             ctx.tagc(t)
-    corr_ctor(ctx, M)
+
+
+def corr_parts(ctx, M):
+    return [("scripted:" + name, (lambda gen=gen: corr_scripts(ctx, gen))) for name, gen in script_classes(ctx, M)] \
+        + [("ctor", lambda: corr_ctor(ctx, M))]
 
 
 SNIP_EXACT = """
@@ -789,11 +811,9 @@ def oracle_periodic(ctx, M, depth, nhand):
                      witness={"class": path, "constructor": ctor, "center": c, "radius": r, "edit": TAMPER[how][1]}, snippet=snippet)
 
 
-def oracle(ctx, M, budget):
-    """The property on the implementation along the scripted histories: every query that carries an exact
-    reference must return exactly the reference (indices ascending after sorting, the parent's points and
-    weights at these indices)."""
-    hs = scripts(ctx, M, oracle="large" if budget == "large" else True)
+def oracle_scripts(ctx, hs):
+    """The property on the implementation along scripted histories: every query that carries an exact reference must
+    return exactly the reference (indices ascending after sorting, the parent's points and weights at these indices)."""
     for h in hs:
         path = B.PATH[h.kind]
         for j, (a, ref) in enumerate(zip(h.impl, h.refs)):
@@ -801,8 +821,7 @@ def oracle(ctx, M, budget):
             if ref is None or a == ref:
                 continue
             last = h.text[j].split("\n")[-1]
-            call = last[len("lg = "):]
-            args = call[len("g.get_localgrid("):-1]
+            args = ", ".join(h.qargs[j]) if getattr(h, "qargs", None) and h.qargs[j] else "None, None"
             snippet = (B.SNIP_HEAD + SNIP_EXACT + "g = " + h.ctor.split("  #")[0] + "\n" + "\n".join(h.text[:j]) + "\n"
                        + "\n".join(h.text[j].split("\n")[:-1]) + f"\nc, r = {args}\nwant = inside(g, c, r)\n"
                        "pts, w = np.array(g.points), np.array(g.weights)\n"
@@ -810,15 +829,24 @@ def oracle(ctx, M, budget):
                        "assert sorted(map(int, lg.indices)) == want, f'indices {sorted(map(int, lg.indices))}, inside the sphere are {want}'\n"
                        "assert np.array_equal(lg.points, pts[lg.indices]) and np.array_equal(lg.weights, w[lg.indices]), 'points/weights are not the parent entries'\n")
             sub = h.tags[j].split(":")[0]
-            got = a.split(" ")
             ctx.fail("oracle", f"{path}.get_localgrid:{sub}",
                      f"{path}: `{last[:140]}` (op {j} of a scripted history, class {h.tags[j]}): the implementation answers {a[:90]!r}, "
                      f"the points of the current grid inside the sphere give {ref[:90]!r}",
                      witness={"class": path, "kind": h.kind, "constructor": h.ctor, "history": h.text[: j + 1], "implementation": a,
                               "expected": ref}, snippet=snippet)
             break
-    oracle_ties(ctx, M, (6 if budget == "large" else 1) * ctx.n(150, 1500))
-    oracle_periodic(ctx, M, 3 if (budget == "large" or ctx.thorough) else 2, (6 if budget == "large" else 1) * ctx.n(60, 600))
+
+
+def oracle_parts(ctx, M, budget):
+    big = "large" if budget == "large" else True
+    f = 6 if budget == "large" else 1
+    return [("scripted:" + name, (lambda gen=gen: oracle_scripts(ctx, gen()))) for name, gen in script_classes(ctx, M, oracle=big)] + [
+        ("ties", lambda: oracle_ties(ctx, M, f * ctx.n(150, 1500))),
+        ("periodic", lambda: oracle_periodic(ctx, M, 3 if (budget == "large" or ctx.thorough) else 2, f * ctx.n(60, 600))),
+        ("observations", lambda: observations(ctx, M))]
+
+
+def observations(ctx, M):
     # the arrays of an infinite-radius local grid are the parent's own (recorded, not asserted: aliasing is the
     # subject of C19 / C20, and editing a stored array in place is outside C10)
     bg = M["basegrid"]
